@@ -65,6 +65,38 @@ theorem fromCompressed_none_iff (ws : List Nat) :
     · rename_i h; subst h; simp
     · rename_i h; simp; exact h
 
+/-- on any backend (bounded or not): a successful `pushAll` only prepends the words -/
+theorem pushAll_some {x y : Coder} (ws : List Nat) (h : pushAll x ws = some y) :
+    y.bulk = ws.reverse ++ x.bulk ∧ y.state = x.state ∧ y.cap = x.cap := by
+  induction ws generalizing x with
+  | nil =>
+    simp only [pushAll, Option.some.injEq] at h
+    subst h; simp
+  | cons w ws ih =>
+    simp only [pushAll] at h
+    split at h
+    · obtain ⟨h1, h2, h3⟩ := ih h
+      simp only at h1 h2 h3
+      refine ⟨?_, h2, h3⟩
+      rw [h1]; simp
+    · cases h
+
+/-- the `get_compressed` guard on **any** backend: if the guard could be created, dropping it
+    restores the coder exactly (if it could not, the model keeps the old coder: D17 repair) -/
+theorem getCompressed_guard_any {x y : Coder} (h : getCompressedThenDrop c x = some y) : y = x := by
+  unfold getCompressedThenDrop at h
+  split at h
+  · rename_i z hz
+    obtain ⟨h1, h2, h3⟩ := pushAll_some _ hz
+    simp only [Option.some.injEq] at h
+    subst h
+    apply Coder.ext3
+    · simp only [dropReads, h1]
+      rw [← List.length_reverse, List.drop_left]
+    · simp only [dropReads]; exact h2
+    · simp only [dropReads]; exact h3
+  · cases h
+
 theorem dropReads_pushAll {x : Coder} (hcap : x.cap = none) (ws : List Nat) :
     (pushAll x ws).map (fun y => dropReads y ws.length) = some x := by
   rw [pushAll_none hcap]
